@@ -95,6 +95,10 @@ pub trait Interface: ErrorHandler {
                     header = call_header;
                 }
             }
+            else {
+                // An empty message ends with a terminator, too.
+                header = self.root_node();
+            }
 
             input = i;
         }
